@@ -338,7 +338,7 @@ def check_domains(op, exp_dom, exp_tgt):
 
 
 def verify(op, ref, seed, *, kind="C", tol=1e-10, exp_dom=None, exp_tgt=None, exp_cap=None,
-           real_in=True, scale=None, check_def=True):
+           real_in=True, scale=None, check_def=True, real_only=False):
     """generic C02 oracle.
 
     kind "C": complex-linear; "R": only real-linear, complex fields in and out (R^{2N} representation);
@@ -375,7 +375,8 @@ def verify(op, ref, seed, *, kind="C", tol=1e-10, exp_dom=None, exp_tgt=None, ex
 
     real_rep = kind == "R"
     Mref = refmat(ref, dsh, tsh, real_rep=real_rep)
-    dense = (lambda mode: nx.dense_real(op, mode)) if real_rep else (lambda mode: nx.dense(op, mode))
+    bdt = np.float64 if real_only else np.complex128     # real_only: only real fields are admissible inputs
+    dense = (lambda mode: nx.dense_real(op, mode)) if real_rep else (lambda mode: nx.dense(op, mode, dtype=bdt))
     H = (lambda M: M.T) if real_rep else (lambda M: M.conj().T)
     sc = scale or max(1.0, float(np.max(np.abs(Mref))) if Mref.size else 1.0)
     if n_in == 0 or n_out == 0:
@@ -400,20 +401,21 @@ def verify(op, ref, seed, *, kind="C", tol=1e-10, exp_dom=None, exp_tgt=None, ex
         close(AI @ A, np.eye(A.shape[1]), "adjoint_inverse", tol=tol * 10,
               scale=max(1.0, float(np.max(np.abs(AI)))) * sc)
     # linearity (complex scalars for complex-linear operators) in every advertised mode
-    a, b = (1.5, -0.75) if real_rep else (1.5 - 0.5j, -0.75 + 2j)
+    a, b = (1.5, -0.75) if (real_rep or real_only) else (1.5 - 0.5j, -0.75 + 2j)
     for mode in nx.MODES:
         if not cap & mode:
             continue
         n = nx.dom_size(nx.op_dom(op, mode))
-        x1, x2 = rvec(rng, n), rvec(rng, n)
-        l = nx.apply_flat(op, a * x1 + b * x2, mode)
-        r = a * nx.apply_flat(op, x1, mode) + b * nx.apply_flat(op, x2, mode)
+        x1, x2 = rvec(rng, n, not real_only), rvec(rng, n, not real_only)
+        ldt = np.float64 if real_only else None
+        l = nx.apply_flat(op, a * x1 + b * x2, mode, dtype=ldt)
+        r = a * nx.apply_flat(op, x1, mode, dtype=ldt) + b * nx.apply_flat(op, x2, mode, dtype=ldt)
         lsc = sc * 16 * max(1, n)
         if mode & 12:
             lsc *= max(1.0, float(np.max(np.abs(I)))) if cap & INV else 1.0
         close(l, r, f"linearity_{nx.MODE_NAME[mode]}", tol=tol, scale=lsc)
     # real (float64) input fields take the same map
-    if real_in and not real_rep:
+    if real_in and not real_rep and not real_only:
         xr = rvec(rng, n_in, False)
         y = nx.apply_flat(op, xr, TIMES, dtype=np.float64)
         close(np.asarray(y, dtype=np.complex128), Mref @ xr if check_def else T @ xr, "real_input", tol=tol,
